@@ -340,3 +340,7 @@ mod tests {
         assert!(!filter.is_in("10:32:54:76:98:BA:DC:FF".parse().unwrap()));
     }
 }
+
+#[cfg(feature = "pendulum_project_ntpd_rs_verif")]
+#[path = "/verif/hooks/ntp-proto/ipfilter.rs"]
+pub mod verif_hooks;
